@@ -260,6 +260,17 @@ def _run_kd(sh, params):
                 k = float(stats.kdouble([p], c, n)[0])
                 sh.count("form:list-p")
             else:
+                if i % 2:
+                    # history: a loosely converged request for the same (p, n) first,
+                    # then the default-tolerance one that is judged (and once more a
+                    # loose one in between): nothing of the loose call may be reused
+                    c0 = 0.5 if c != 0.5 else 0.9
+                    stats.kdouble(p, c0, n, tol=0.1)
+                    if i % 4 == 3:
+                        stats.kdouble(p, c, n)
+                        stats.kdouble(p, c0, n, tol=0.3)
+                    sh.count("cell:kd:after-loose-tolerance-call")
+                    case = dict(case, after_loose_call=True)
                 k = float(stats.kdouble(p, c, n))
                 sh.count("form:scalar")
         except Exception as e:
@@ -582,7 +593,10 @@ def _run_os(sh, params):
         # relative accuracy of both tails (conf and 1-conf), where they are not ~0
         w = float(want)
         sh.count("mon:order-c-exact-tail")
-        tol = 1e-9 * min(w, 1 - w) + 1e-15
+        # relative to the smaller tail (a confidence of 1e-20 is a number, not zero) plus
+        # the representation error of the value itself (a confidence within 1e-16 of 1
+        # cannot be told from 1)
+        tol = 1e-9 * min(w, 1 - w) + 4 * 2.220446049250313e-16 * w + 1e-300
         e = float(abs(mp.mpf(got) - want))
         sh.worst("order-c-exact-tail", e / tol)
         if not e <= tol:
@@ -663,9 +677,23 @@ def _run_os(sh, params):
                        np.array([[0.95]]), r=rr[:, None]), ("r", rr),
              ("p", pr[pr >= 0.9] if np.any(pr >= 0.9) else np.array([0.95]))),
         ]
-        for which, kw, (rowname, rows), (colname, cols) in plans:
-            case = {"which": which, "broadcast": {k: np.asarray(v).ravel().tolist()
-                                                  for k, v in kw.items()}}
+        for ip_, (which, kw, (rowname, rows), (colname, cols)) in enumerate(plans):
+            layout = "broadcast-views"
+            if (i + ip_) % 3 == 1:
+                # the same request with every array argument a full 2-D table that is NOT
+                # C-ordered (a transposed table / DataFrame.values / Fortran array)
+                shp = (len(rows), len(cols))
+                kw = {k: (v if np.ndim(v) == 0 else np.asfortranarray(
+                    np.broadcast_to(v, shp).copy())) for k, v in kw.items()}
+                layout = "fortran-2d"
+            elif (i + ip_) % 3 == 2:
+                shp = (len(rows), len(cols))
+                kw = {k: (v if np.ndim(v) == 0 else np.ascontiguousarray(
+                    np.broadcast_to(v, shp).T).T) for k, v in kw.items()}
+                layout = "transposed-view"
+            sh.count("cell:os-broadcast:" + layout)
+            case = {"which": which, "layout": layout,
+                    "broadcast": {k: np.asarray(v).ravel().tolist() for k, v in kw.items()}}
             tags = {"which": which, "broadcast": True}
             sh.case(case, True)
             try:
